@@ -37,6 +37,7 @@ func runC06(p *eng.Prog, r *eng.Report, tier string) {
 	callerAttrsCopied(c, "C06.15")
 	idTypFromOwnAttributes(c, "C06.16")
 	pageTurnClosesFirst(c, "C06.17")
+	c.r.Floor("C06.20", "children of a stanza picked by local name in the handlers", iterChildSelectedByNamespace(c, "C06.20", func(f *eng.Fn) bool { return strings.HasPrefix(f.Short, "receipts.") }), 2)
 	c15ExpectOwnEntryAs(c, "C06.18")
 	deadlineWatchersArmedAtOnce(c, "C06.19")
 	waitKey(c, "C06.10")
